@@ -41,10 +41,16 @@ var c04Caches = []int{0, 1 << 20, 200} // off, ample, tiny (evictions)
 func c04Scenario(c *choice.Ctx, rep *report.R, depth int) {
 	own := env.InstallOwn(0xA5, vRace)
 	defer env.UninstallOwn()
+	seamIdle = 1000 * time.Second // the scenario lets up to ~100 s pass between two queries of one client
+	defer func() { seamIdle = 30 * time.Second }()
+	caches, pairs, triples := c04Caches, c04Pairs, c04Triples
+	if !report.Thorough() { // the quick tier walks a third of the configuration product, the thorough tier all of it
+		caches, pairs, triples = c04Caches[:2], c04Pairs[:3], c04Triples[:4]
+	}
 	upKind := c04Upstreams[c.Choose(len(c04Upstreams), "upstream")]
-	cacheSize := c04Caches[c.Choose(len(c04Caches), "cache")]
-	pair := c04Pairs[c.Choose(len(c04Pairs), "listeners")]
-	triple := c04Triples[c.Choose(len(c04Triples), "questions")]
+	cacheSize := caches[c.Choose(len(caches), "cache")]
+	pair := pairs[c.Choose(len(pairs), "listeners")]
+	triple := triples[c.Choose(len(triples), "questions")]
 	var trace []string
 	desc := fmt.Sprintf("upstream=%s cache=%d listeners=%v questions=%v", upKind, cacheSize, pair, triple)
 	fail := func(sig, msg string) {
@@ -111,8 +117,24 @@ func c04Scenario(c *choice.Ctx, rep *report.R, depth int) {
 	}
 	var qClients [3]c03Client
 	checkResponses := func() {
-		for ci := 0; ci < 2; ci++ {
-			_ = ci
+		// every query the upstream receives must be for a question some client asked (fresh or as a refresh)
+		for ci := 0; ci < d.NumConns(); ci++ {
+			for _, uq := range env.QueriesOn(ci, d.ImplEnd(ci), tcp) {
+				if uq.Msg == nil || len(uq.Msg.Q) != 1 {
+					fail("garbled-upstream-query", fmt.Sprintf("%x", uq.Wire))
+					continue
+				}
+				known := false
+				for i := 0; i < sent; i++ {
+					q := c04Questions[triple[i]]
+					if uq.Msg.Q[0].Name.Equal(q.name.Lower()) && uq.Msg.Q[0].Class == q.class && uq.Msg.Q[0].Type == q.typ {
+						known = true
+					}
+				}
+				if !known {
+					fail("upstream-asked-foreign-question", fmt.Sprintf("the upstream received a query for %s/%d/%d which no client asked: request data was lost or mixed up", uq.Msg.Q[0].Name, uq.Msg.Q[0].Class, uq.Msg.Q[0].Type))
+				}
+			}
 		}
 		for i := 0; i < sent; i++ {
 			cl := qClients[i]
@@ -190,6 +212,9 @@ func c04Scenario(c *choice.Ctx, rep *report.R, depth int) {
 			}
 		}
 		menu = append(menu, event{name: "advance1s", do: func() { hsleep(time.Second) }})
+		// longer steps (request deadline / I-O deadline of the upstream; into the refresh window of a 60 s answer) cost one deviation each
+		menu = append(menu, event{name: "advance6s", fault: true, do: func() { hsleep(6 * time.Second) }})
+		menu = append(menu, event{name: "advance46s", fault: true, do: func() { hsleep(46 * time.Second) }})
 		ev := pickEvent(c, menu)
 		if ev == nil {
 			break
@@ -261,10 +286,10 @@ func TestVerifC04(t *testing.T) {
 	defer rep.Write()
 	depth := report.ParamInt("DEPTH", 7)
 	rep.Rule = fmt.Sprintf("E3: real router + real upstream transport %v over the scripted dialer + cache {off, ample, 200 bytes (evictions)}; listener pairs %v; question triples %v over {one/IN/A, two/IN/A, one/CH/A, one/IN/AAAA, ONE (case variant)}, query 0 and 2 from the first client, query 1 from the second; "+
-		"all sequences of length <=%d over {send next query, deliver the reply to any outstanding upstream query (any order on pipelined transports), advance 1 s}; then every outstanding reply is delivered; "+
+		"all sequences of length <=%d over {send next query, deliver the reply to any outstanding upstream query (any order on pipelined transports), advance 1 s, advance 6 s / 46 s (bounded number per execution)}; then every outstanding reply is delivered; "+
 		"oracle after every event: every client-visible response to query i carries i's own question and the answer the upstream produced for exactly that (name, class, type) - fresh or from cache -, no poison/uninit bytes; finally exactly one response per query",
 		c04Upstreams, c04Pairs, c04Triples, depth)
-	st := runExplore(t, rep, -1, func(c *choice.Ctx) { c04Scenario(c, rep, depth) })
+	st := runExplore(t, rep, report.ParamInt("LONGSTEPS", 1), func(c *choice.Ctx) { c04Scenario(c, rep, depth) })
 	rep.Count("executions", st.Executions)
 	rep.Sample(map[string]any{"upstream": "pipeline-tcp", "cache": "ample", "listeners": "udp+tcp", "questions": "[one/IN/A, two/IN/A, one/IN/A]", "events": "send0 send1 reply(c0#1) send2 reply(c0#0) reply(c0#2)"})
 }
